@@ -750,6 +750,15 @@ pub fn c05(ctx: &mut Ctx, tier: &str, seed: u64) {
     for win in [false, true] {
         let e = gen::e(win);
         let dom = gen::c05_small(win, tier, seed);
+        // operands that ALIAS each other: a path against its own parent / ancestors / tails
+        for a in &dom {
+            for (lo, hi) in alias_ranges(win, a) {
+                ctx.evals += 1;
+                if let Some(d) = cmp_alias_mismatch(win, a, lo, hi) {
+                    ctx.fail("comparison-depends-on-bytes-only", None, format!("rel {} {} {}", e, hex(a), hex(&a[lo..hi])), d);
+                }
+            }
+        }
         let pairs = gen::pairs_related(&dom, win, if t { 40 } else { 8 }, seed);
         let mut hs: HashSet<WindowsPathBuf> = HashSet::new();
         let mut bs: BTreeSet<WindowsPathBuf> = BTreeSet::new();
